@@ -1087,6 +1087,7 @@ POST_CASES = [
     {"post": "rejected-add-then-use", "via": "map"}, {"post": "rejected-add-then-use", "via": "run"},
     {"post": "rename-output-to-duplicate", "via": "map"}, {"post": "rename-output-to-duplicate", "via": "run"},
     {"post": "scope-output-to-duplicate", "via": "run"},
+    {"post": "member-bind-then-surplus", "via": "map"}, {"post": "member-bind-then-surplus", "via": "map-prior-folder"},
     {"post": "rename-output-to-tuple-member", "via": "map"}, {"post": "rename-output-to-tuple-member", "via": "run"},
     {"post": "storage-unknown-after-valid-entry", "via": "map"}, {"post": "storage-unknown-after-valid-entry", "via": "map-prior-folder"},
 ]
@@ -1139,6 +1140,12 @@ def run_post(case):  # noqa: C901, PLR0912
                         pass  # the caller ignores the rejection and goes on using the pipeline
                 elif kind == "rename-output-to-duplicate":
                     p.update_renames({"w": "z"})  # k's output now has the same name as g's
+                elif kind == "member-bind-then-surplus":
+                    # b gets a bound value on BOTH functions that take it (through the functions, after construction): it is
+                    # no input of the pipeline any more, so a b in `inputs` is a surplus input
+                    p["y"].update_bound({"b": "bb"})
+                    p["z"].update_bound({"b": "bb"})
+                    inputs = {**inputs, "b": "B"}
                 elif kind == "rename-output-to-tuple-member":
                     p.update_renames({"z": "v"})  # g's output now has the name of ONE member of k's output tuple
                 elif kind == "scope-output-to-duplicate":
